@@ -30,6 +30,7 @@
   correspondence run, not proved.
 -/
 import Hv.Data.Persist
+import Hv.Data.Persist2
 import Hv.Props.C06
 
 namespace Hv.C05
@@ -231,6 +232,80 @@ theorem not_holds_incfail (cfg : Cfg) (hc : cfg.incFailClean = false) : ¬ Holds
   cases hr : cfg.resetsFlags <;> cases hn : cfg.noEmptyLive <;> cases he : cfg.encoding <;> cases hk : cfg.keyChecked <;>
     cases hp : cfg.recreateKeepsPointer <;> c05_eval [he, hr, hn, hk, hp, hc] at h1
 
+/-! ### several sessions, either write interval: `Holds` reduced to a per-request obligation
+
+  `POKState`: the live instance (if any) satisfies `Hv.Data.POK` — every key that is not waiting for
+  the writer has, in the instance's file image, the persisted form of its live record — and a closed
+  swamp's file is in key order and holds persisted records.  It holds initially, a close keeps it
+  (`pokstate_close`), and from it one more close + reload shows the records passed once through the
+  encoding (`Hv.Data.close_view_pok`).  Hence `holds_multi_partial`: with a type-tagged encoding,
+  `Holds` — any persistent kind, any number of sessions — follows from `StepKeepsPOK`, the statement
+  that every REQUEST keeps `POKState`.  For the write-buffer steps themselves that is proved in
+  `Hv.Data.Persist2` (`pok_save`, `pok_delete`, with the side conditions "a treasure whose changed
+  flag is clear is the stored one or already queued" and "an object without a file pointer is not in
+  the file"); discharging those side conditions along every request path (flag accuracy of the
+  setters under `resetsFlags ∧ metaCompare` or sticky flags; `recreateKeepsPointer`; `incFailClean`)
+  is what remains open.  The three counterexamples above are exactly the ways it fails. -/
+
+structure POKState (cfg : Cfg) (s : State) : Prop where
+  kind : s.kind ≠ .mem
+  live : ∀ i, s.live = some i → POK cfg.encoding i
+  closed : s.live = none → AL.Sorted (s.file.getD []) ∧ ∀ p, p ∈ s.file.getD [] → persistRec cfg.encoding (loadRec p.2) = p.2
+
+def StepKeepsPOK (cfg : Cfg) : Prop :=
+  ∀ (ar : Arith) (now : Int) (s : State) (req : Req), POKState cfg s → POKState cfg (Model.step cfg ar now s req).s
+
+theorem pokstate_init (cfg : Cfg) (kind : Kind) (hk : kind ≠ .mem) : POKState cfg (init kind) :=
+  ⟨hk, fun i hi => (by cases hi), fun _ => ⟨AL.sorted_nil, fun p hp => (by cases hp)⟩⟩
+
+theorem pokstate_close (cfg : Cfg) (he : cfg.encoding = .typeTagged) (s : State) (hs : POKState cfg s) :
+    POKState cfg (Model.closeStep cfg s).1 := by
+  obtain ⟨hk, hl, hf⟩ := hs
+  unfold Model.closeStep
+  cases hd : s.dead with
+  | true => simp only [if_true]; exact ⟨hk, hl, hf⟩
+  | false =>
+    simp only [Bool.false_eq_true, if_false]
+    cases hlive : s.live with
+    | none => simp only; exact ⟨hk, fun i hi => (by rw [hlive] at hi; cases hi), fun _ => hf hlive⟩
+    | some i =>
+      have hi := hl i hlive
+      have hfile := closeDisk_pok cfg i hi
+      cases hkind : s.kind with
+      | mem => exact absurd hkind hk
+      | p0 =>
+        simp only
+        refine ⟨by simp [hkind], fun j hj => (by cases hj), fun _ => ?_⟩
+        simp only [hfile]
+        exact ⟨AL.sorted_mapV _ _ hi.srt, fun p _ => by rw [he]; rfl⟩
+      | p1 =>
+        simp only
+        refine ⟨by simp [hkind], fun j hj => (by cases hj), fun _ => ?_⟩
+        simp only [hfile]
+        exact ⟨AL.sorted_mapV _ _ hi.srt, fun p _ => by rw [he]; rfl⟩
+
+theorem pokstate_runE (cfg : Cfg) (he : cfg.encoding = .typeTagged) (hstep : StepKeepsPOK cfg) (ar : Arith) (h : List Ev) :
+    ∀ s, POKState cfg s → POKState cfg (runE cfg ar s h) := by
+  induction h with
+  | nil => intro s hs; exact hs
+  | cons ev rest ih =>
+    intro s hs
+    cases ev with
+    | req now r => simp only [runE]; exact ih _ (hstep ar now s r hs)
+    | close => simp only [runE]; exact ih _ (pokstate_close cfg he s hs)
+
+/-- **C05 over several sessions and either write interval, as far as it is proved**: with a
+    type-tagged encoding, `Holds` follows from the per-request obligation `StepKeepsPOK`. -/
+theorem holds_multi_partial (cfg : Cfg) (he : cfg.encoding = .typeTagged) (hstep : StepKeepsPOK cfg) : Holds cfg := by
+  intro ar kind hk h hd
+  obtain ⟨hkind, hl, _⟩ := pokstate_runE cfg he hstep ar h (init kind) (pokstate_init cfg kind hk)
+  cases hlive : (runE cfg ar (init kind) h).live with
+  | none => simp only [Model.closeStep, hd, Bool.false_eq_true, if_false, hlive]
+  | some i =>
+    rw [close_view_pok cfg _ hkind hd i hlive (hl i hlive), he]
+    simp only [Model.abs, hlive]
+    exact mapV_congr _ _ _ (fun p _ => rfl)
+
 /-! ### decision over the extracted facts -/
 
 inductive Enc where
@@ -255,6 +330,8 @@ structure Facts where
   fltCondDirect : Tri
   keyChecked : Tri
   recreateKeepsPointer : Tri
+  patchAsksFirst : Tri
+  fltSetBitwise : Tri
   saveReleasesImmediate : Tri
   wireExpNe0 : Tri
   deriving DecidableEq, Repr
@@ -262,7 +339,7 @@ structure Facts where
 def kvFacts (f : Facts) : Hv.C06.Facts :=
   ⟨f.resetsFlags, f.metaCompare, f.tsPositive, f.voidClears, f.pushChecksType, f.setSliceReplaces,
    f.u32delReleases, f.u32delChecksType, f.incFailClean, f.noEmptyLive, f.arekAllFalse, f.countMissingOk,
-   f.setErrSingle, f.fltCondDirect, f.keyChecked, f.recreateKeepsPointer, f.saveReleasesImmediate, f.wireExpNe0⟩
+   f.setErrSingle, f.fltCondDirect, f.keyChecked, f.recreateKeepsPointer, f.patchAsksFirst, f.fltSetBitwise, f.saveReleasesImmediate, f.wireExpNe0⟩
 
 def cfgOf (f : Facts) : Cfg :=
   { Hv.C06.cfgOf (kvFacts f) with encoding := match f.encoding with | .typeTagged => .typeTagged | _ => .gobOmitZero }
